@@ -334,7 +334,7 @@ Assign(l, r, nonblocking, C) ==
         lw  == RefW(C.d, ref)
     IN  IF ref.ill THEN [C EXCEPT !.err = "ill-typed-target"]
         ELSE IF ref.ud # <<>> THEN [C EXCEPT !.err = "array-assignment"]
-        ELSE IF ref.bad THEN [C EXCEPT !.err = "out-of-range-write"]
+        ELSE IF ref.bad THEN [C EXCEPT !.err = "out-of-range-write:" \o ref.v]   \* (names the variable)
         ELSE LET val == AssignVal(lw, r, C)
              IN  IF nonblocking THEN [C EXCEPT !.nb = Append(@, <<ref, val>>)]
                  ELSE [C EXCEPT !.st = Write(@, ref, val)]
@@ -427,18 +427,21 @@ ARef(e, C) ==
     IF e.k = "id" THEN
         LET ty == C.d.vars[e.n].ty
         IN  [v |-> e.n, e0 |-> 0, cnt |-> Prod(ty.ud), ud |-> ty.ud, lo |-> 0, pd |-> ty.pd,
-             base |-> ty.base, open |-> TRUE]
+             base |-> ty.base, open |-> TRUE, none |-> FALSE]
     ELSE
     LET r == ARef(e.e, C) IN
     IF ~r.open THEN r
     ELSE IF e.k = "idx" THEN
         IF ~Static(e.i, C) THEN [r EXCEPT !.open = FALSE]
         ELSE LET i == IdxVal(e.i, C) IN
+             \* a constant index outside the declared range selects nothing (7.4.6: such a write is a
+             \* no-op; the behaviour clauses report it as out-of-range-write)
              IF r.ud # <<>> THEN
-                 IF i < 0 \/ i >= Head(r.ud) THEN [r EXCEPT !.open = FALSE]
+                 IF i < 0 \/ i >= Head(r.ud) THEN [r EXCEPT !.open = FALSE, !.none = TRUE]
                  ELSE [r EXCEPT !.e0 = r.e0 + i * Prod(Tail(r.ud)), !.cnt = Prod(Tail(r.ud)), !.ud = Tail(r.ud)]
              ELSE IF r.pd # <<>> /\ i >= 0 /\ i < Head(r.pd) THEN
                  [r EXCEPT !.lo = r.lo + i * PackW(C.d, Tail(r.pd), r.base), !.pd = Tail(r.pd)]
+             ELSE IF r.pd # <<>> THEN [r EXCEPT !.open = FALSE, !.none = TRUE]
              ELSE [r EXCEPT !.open = FALSE]
     ELSE IF e.k = "field" THEN
         IF r.ud # <<>> \/ r.pd # <<>> \/ ~HasField(C.d, r.base, e.f) THEN [r EXCEPT !.open = FALSE]
@@ -460,7 +463,8 @@ ARef(e, C) ==
 
 Target(e, C) ==
     LET r == ARef(e, C)
-    IN  [v |-> r.v, e0 |-> r.e0, e1 |-> r.e0 + r.cnt - 1, lo |-> r.lo, hi |-> r.lo + PackW(C.d, r.pd, r.base) - 1]
+    IN  [v |-> IF r.none THEN "" ELSE r.v, e0 |-> r.e0, e1 |-> r.e0 + r.cnt - 1, lo |-> r.lo,
+         hi |-> r.lo + PackW(C.d, r.pd, r.base) - 1]
 
 RECURSIVE Targets(_, _)
 Targets(s, C) ==
@@ -480,7 +484,7 @@ Drivers(d) ==
         procs  == d.comb \o d.ff
         np     == Len(procs)
         \* table: variable -> sequence of <<driver id, target>>
-        add(tab, id, ts) == FoldLeft(LAMBDA m, t : [m EXCEPT ![t.v] = Append(@, <<id, t>>)], tab, ts)
+        add(tab, id, ts) == FoldLeft(LAMBDA m, t : IF t.v = "" THEN m ELSE [m EXCEPT ![t.v] = Append(@, <<id, t>>)], tab, ts)
         tab0   == [n \in DOMAIN d.vars |->
                      IF d.vars[n].kind \in {"in", "param"} THEN << <<0, whole(n)>> >> ELSE <<>>]
         tab    == FoldLeft(LAMBDA m, i : add(m, i, Targets(procs[i].body, C0)), tab0, Idx(np))
